@@ -498,6 +498,7 @@ Inductive out :=
 | ONew (o : objid)
 | ODumpObj (ext : bool) (proto : option objid) (props : list (key * pdesc))
 | OIC (e : list icev)
+| OThisDataHit   (* ghost, never printed: a cached data write was taken (or a data slot stored) with receiver <> keyed object *)
 | OBadStore.      (* ghost, never printed: this step stored a cache entry that does not describe the receiver's shape now *)
 
 Definition call_getter (f : fid) : list out * val := ([OCall f None], VNum (1000 + f)).
@@ -990,7 +991,7 @@ Fixpoint run (rc : recheck) (ic : bool) (ft : ftab) (st : state) (ops : list op)
   end.
 
 (* what a program can observe: everything except the cache decisions (and the ghost marker) *)
-Definition visible (o : out) : bool := match o with OIC _ | OBadStore => false | _ => true end.
+Definition visible (o : out) : bool := match o with OIC _ | OBadStore | OThisDataHit => false | _ => true end.
 Definition observable (r : list (option (list out))) : list (option (list out)) :=
   map (fun x => match x with Some l => Some (filter visible l) | None => None end) r.
 
@@ -1057,3 +1058,90 @@ Fixpoint first_irregular (rc : recheck) (ft : ftab) (st : state) (ops : list op)
            end
   end.
 Definition Irregular (rc : recheck) (ft : ftab) (ops : list op) : Prop := first_irregular rc ft init ops 0 <> None.
+
+(* ------------------------------------------------------------------------------------------- `super.k = v` / `super.k`
+   SetPropertyByNameWithThis / GetPropertyByNameWithThis: set_by_name(value, value_object = [o] (the home object's prototype),
+   receiver = [r] (this)).  The cache is keyed by the shape of [o]; the slow path is [[Set]](o, k, v, receiver r).
+   [sr] = the repair of fixes.d/C06-super-set-receiver.patch: the cached data-write paths are taken, and data slots are stored,
+   only when the receiver is the keyed object itself (accessor slots are receiver-independent: the setter gets the receiver). *)
+Definition cached_set_this (sr : bool) (rc : recheck) (ic : bool) (ft : ftab) (st : state) (id : siteid) (o r : objid) (v : val)
+  : option (list out * state) :=
+  let h := st_heap st in
+  let '(kd, _, k) := id in
+  match get_obj h o with
+  | None => Some ([ONoObj], st)
+  | Some x =>
+      let c0 := site_get (st_sites st) id in
+      let '(hit0, c, ev) := if ic then ic_get c0 h k (o_shape x) else (None, c0, []) in
+      let direct (sl : slot) := sf_is_accessor_descriptor (s_attrs sl) || N.eqb r o in
+      let hit := match hit0 with Some sl => if sr && negb (direct sl) then None else Some sl | None => None end in
+      match hit with
+      | Some sl =>
+          let i := s_index sl in
+          if sf_is_accessor_descriptor (s_attrs sl) then
+            stg <- hit_store h x sl ;;
+            result <- nthN stg (i + 1) ;;
+            if sf_has_set (s_attrs sl) && is_object result
+            then let tr := match result with VFun f => call_setter f v | _ => [] end in
+                 h1 <- apply_calls ft h tr ;;
+                 Some (tr ++ [OBool true; OIC ev], {| st_heap := h1; st_sites := st_sites st |})
+            else Some ([OTypeErr; OIC ev], st)
+          else if has_flag (s_attrs sl) sf_PROTOTYPE then
+            p <- shape_proto h (o_shape x) ;;
+            px <- get_obj h p ;;
+            stg <- set_nth (o_store px) i v ;;
+            Some ([OBool true; OIC ev] ++ (if N.eqb r o then [] else [OThisDataHit]),
+                  {| st_heap := set_obj h p {| o_shape := o_shape px; o_store := stg; o_ext := o_ext px |};
+                     st_sites := st_sites st |})
+          else
+            stg <- set_nth (o_store x) i v ;;
+            Some ([OBool true; OIC ev] ++ (if N.eqb r o then [] else [OThisDataHit]),
+                  {| st_heap := set_obj h o {| o_shape := o_shape x; o_store := stg; o_ext := o_ext x |};
+                     st_sites := st_sites st |})
+      | None =>
+          '(tr, h', ok, sl) <- ordinary_set (chain_fuel h) h o k v r slot_new ;;
+          h1 <- apply_calls ft h' tr ;;
+          x' <- get_obj h1 o ;;
+          let store := ic && ok && sf_is_cacheable (s_attrs sl) && (negb sr || direct sl) in
+          let '(c', ev', bad) := if store then ic_set rc kd c h1 k (o_shape x') sl else (c, [], false) in
+          let st' := {| st_heap := h1; st_sites := if ic then site_put (st_sites st) id c' else st_sites st |} in
+          Some (tr ++ [if ok then OBool true else OTypeErr; OIC (ev ++ ev')] ++ ghost bad ++
+                (if store && negb (direct sl) then [OThisDataHit] else []), st')
+      end
+  end.
+
+Inductive xop :=
+| XOp (o : op)
+| XSetThis (s : N) (k : key) (o r : objid) (v : val)     (* H = {m(v){"use strict"; super.k = v}} with H.__proto__ = O[o]; H.m.call(O[r], v) *)
+| XGetThis (s : N) (k : key) (o r : objid).              (* H = {m(){return super.k}} with H.__proto__ = O[o]; H.m.call(O[r]) *)
+
+Definition xstep (sr : bool) (rc : recheck) (ic : bool) (ft : ftab) (st : state) (x : xop) : option (list out * state) :=
+  match x with
+  | XOp o => step rc ic ft st o
+  | XSetThis s k o r v =>
+      match get_obj (st_heap st) r with
+      | None => Some ([ONoObj], st)
+      | Some _ => cached_set_this sr rc ic ft st (SSet, s, k) o r v
+      end
+  | XGetThis s k o r =>
+      (* the receiver only becomes `this` of a getter; the opaque functions do not look at it *)
+      match get_obj (st_heap st) r with
+      | None => Some ([ONoObj], st)
+      | Some _ => cached_get rc ic ft false st (SGet, s, k) o
+      end
+  end.
+Fixpoint xrun (sr : bool) (rc : recheck) (ic : bool) (ft : ftab) (st : state) (ops : list xop) : list (option (list out)) :=
+  match ops with
+  | [] => []
+  | o :: r =>
+      match xstep sr rc ic ft st o with
+      | None => [None]
+      | Some (outs, st') => Some outs :: xrun sr rc ic ft st' r
+      end
+  end.
+Fixpoint first_this_data (r : list (option (list out))) (i : N) : option N :=
+  match r with
+  | [] => None
+  | Some l :: t => if existsb (fun o => match o with OThisDataHit => true | _ => false end) l then Some i else first_this_data t (i + 1)
+  | None :: _ => None
+  end.
